@@ -1,6 +1,6 @@
 """Native oracle for C20 (bounded layer): emulated state vs documented gate matrices.
 
-For every gate function of guppylang.std.quantum that documents a matrix (parsed from its
+For every gate function of guppylang.std.quantum and guppylang.std.qsystem that documents a matrix (parsed from its
 docstring by the contract, exactly, and handed over numerically), every order in which distinct
 qubits can be passed to it, rotation angles from a list, and input states {every computational
 basis state, one generic product superposition}, a circuit  prepare; gate; state_result  is
@@ -18,7 +18,19 @@ import guppy_plainbool
 import itertools, os, sys, tempfile, importlib.util, shutil, json
 import numpy as np
 
+# the qsystem extension installed here (tket-exts 0.14) no longer defines the two measurement operations
+# /repo's std.qsystem binds at import time; declare them (never executed) so that the module imports and
+# its gate functions (phased_x, zz_phase, zz_max, rz) can be compiled and emulated
+import hugr.ext as _he, hugr.tys as _ht
+from guppylang_internals.std._internal.compiler import tket_exts as _TE
+_ext = _TE.QSYSTEM_EXTENSION
+_q = _ext.get_op("Reset").signature.poly_func.body.input[0]
+for _name, _outs in (("Measure", [_ht.Bool]), ("MeasureReset", [_q, _ht.Bool])):
+    if _name not in _ext.operations:
+        _ext.add_op_def(_he.OpDef(_name, _he.OpDefSig(_ht.PolyFuncType([], _ht.FunctionType([_q], _outs))), description="declared by the verification harness; never executed"))
+
 HEAD = """from guppylang import guppy
+import guppylang.std.qsystem as qsystem
 from guppylang.std.quantum import *
 from guppylang.std.quantum import qubit, discard, reset, project_z
 from guppylang.std.angles import angle, pi
